@@ -134,6 +134,16 @@ func (in *Interp) svCall(fr *Frame, name string, args []Value, fn *ssa.Function)
 	case "Region":
 		in.regions[args[0].(string)] = toBoolTerm(in, args[1])
 		return nil
+	case "CaptureStdout":
+		n0 := len(in.stdout)
+		in.callValue(fr, args[0], nil)
+		var out Value = ""
+		for _, s := range in.stdout[n0:] {
+			out = strConcat(out, s)
+		}
+		return out
+	case "Repeats":
+		return int64(1)
 	case "Thorough":
 		return in.thorough
 	case "MapOrder":
